@@ -1018,6 +1018,9 @@ func (w *World) bsiCol(r *Rng, F *bsiFam, h bsiH) uint64 {
 		}
 		return c
 	}
+	if r.Chance(1, 16) {
+		return uint64(r.Intn(2)) // column 0: the id a zero-padded batch names
+	}
 	c := w.X.bsiBase(r, F) + uint64(r.Intn(64))
 	if !F.colOK(c) {
 		c &= 0xFFFFFFFF
